@@ -60,7 +60,11 @@ def seqTick {α} (kind : SeqKind) (items : Nat → Item) (s : SeqSt) (done : Boo
   else if done then ({ s with pending := false }, [])
   else
     match items s.idx with
-    | .src => ({ s with pending := false, idx := s.idx + 1 }, [Act.sub s.idx])
+    | .src =>
+      -- `subscription.disposable = d` (SerialDisposable): the previous source's holder is disposed - a no-op when the
+      -- previous source already closed itself (queued hand-over), the thing that closes it when the action runs
+      -- re-entrantly inside its terminal handler (inline hand-over) - then the next source is subscribed
+      ({ s with pending := false, idx := s.idx + 1 }, [Act.unsub (s.idx - 1), Act.sub s.idx])
     | .stop =>
       ({ s with pending := false },
         match kind, s.lastErr with
@@ -75,6 +79,20 @@ def seqTick {α} (kind : SeqKind) (items : Nat → Item) (s : SeqSt) (done : Boo
 def seqM {α} (kind : SeqKind) (items : Nat → Item) : Machine SeqSt α α :=
   { handler := seqHandler kind, tick := seqTick kind items }
 def seqInit : St SeqSt := ⟨{}, {}⟩
+
+/-- **Inline hand-over.** When the subscription is made with a scheduler that runs zero-delay work inline
+(ImmediateScheduler), `scheduler.schedule(action)` inside a source's terminal handler runs the action re-entrantly:
+before that handler returns, hence before the source's own AutoDetachObserver disposes its subscription.  The handler
+of the inline machine is the handler followed by the action it armed (the downstream observer cannot be stopped at
+that point: an arming handler emits nothing).  The first action (armed by `subscribe`) is still the explicit `tick`. -/
+def seqInlineHandler {α} (kind : SeqKind) (items : Nat → Item) (s : SeqSt) (k : Nat) (n : Notif α) :
+    SeqSt × List (Act α) :=
+  let h := seqHandler kind s k n
+  let t := seqTick (α := α) kind items h.1 false
+  (t.1, h.2 ++ t.2)
+
+def seqInlineM {α} (kind : SeqKind) (items : Nat → Item) : Machine SeqSt α α :=
+  { handler := seqInlineHandler kind items, tick := seqTick kind items }
 
 /-- `items` of the derived forms -/
 def itemsCount (n : Option Nat) : Nat → Item := fun j =>
